@@ -61,6 +61,48 @@ def check(run, prog, tier):
                             LS + "redfieldtensor.RedfieldRelaxationTensor"], 6,
                            "kT, the frequency cut-off and the time axis are internal: the rates no longer obey "
                            "detailed balance at the stated temperature")
+    run.rule("C06-R9", "every integral over time or frequency carries the spacing of its axis: a spline built over the axis, or "
+                       "a quadrature routine given x= or dx= (one without integrates with unit spacing, the rate is off by 1/step)",
+             minimum=30)
+    rule_R9(run, prog)
+
+
+QUAD = ("trapz", "trapezoid", "cumtrapz", "cumulative_trapezoid", "simps", "simpson", "cumulative_simpson", "romb")
+
+
+def rule_R9(run, prog, rid="C06-R9", floor=30):
+    """'... equal the golden-rule value within the accuracy of the numerical half-Fourier transform': the rates are running
+    integrals of C(t) exp(i w t) over the time axis.  The package takes them in two ways: splines over the axis values
+    (`UnivariateSpline(t, f).antiderivative()(t)`, `.integral(a, b)`), which know the spacing, and quadrature routines of
+    scipy / numpy, which do not unless told: `cumulative_trapezoid(f)` integrates with dx = 1 whatever the step of the axis
+    is.  Every quadrature call of the package must name its abscissa (second positional argument, x=) or its step (dx=).
+    A cumulative sum used as an integral must be multiplied by a step in the same expression."""
+    n = 0
+    for f in prog.all_functions():
+        if ".tests." in f.qualname or ".wizard." in f.qualname:
+            continue
+        for c in walk_no_nested(f.node):
+            if not isinstance(c, ast.Call):
+                continue
+            cn = (call_name(c) or "").split(".")[-1]
+            if cn in ("antiderivative", "integral") and isinstance(c.func, ast.Attribute):
+                n += 1
+                prog.consulted.add(f.relpath)
+                run.obligation(rid, f.short, True, key="spline:%d" % n, loc=f.loc(c), message="")
+            elif cn in QUAD:
+                n += 1
+                prog.consulted.add(f.relpath)
+                ok = len(c.args) >= 2 or any(k.arg in ("x", "dx") for k in c.keywords)
+                par = parents_map(f.node).get(c)
+                if isinstance(par, ast.BinOp) and isinstance(par.op, ast.Mult):
+                    ok = True       # unit-spacing sum times the step, written out
+                run.obligation(rid, f.short, ok, key="quadrature-spacing:" + norm(c)[:40],
+                               message="%s integrates `%s` with unit spacing: neither the abscissa (x=) nor the step (dx=) of the axis "
+                                       "is given, so the integral - a rate, a line-shape function - comes out multiplied by 1/step "
+                                       "on every axis whose step is not 1" % (f.short, norm(c)[:70]),
+                               loc=f.loc(c), sample={"call": norm(c)[:60]})
+    if n < floor:
+        raise AnalysisError("%s: only %d integrals found in the package (%d confirmed)" % (rid, n, floor))
 
 
 def rule_R1(run, prog):
